@@ -1,0 +1,92 @@
+//go:build verif
+
+package txt
+
+// Machine-checked contracts for package txt (comment-only; see klog/contracts_verif.go).
+
+// ---------------------------------------------------------------------------------------------
+// util.go
+
+//@ func SubRune
+//@ requires start >= 0 && length >= 0
+//@ ensures implies(start >= len(text), isnil(result))
+//@ ensures implies(start < len(text), same(result, text[start:min(start+length, len(text))]))
+
+//@ func Is$1
+//@ ensures result == exists(k, 0, len(matchingCharacter), matchingCharacter[k] == r)
+//@ loop 1 invariant forall(k, 0, rangeindex+1, matchingCharacter[k] != r)
+
+// ---------------------------------------------------------------------------------------------
+// parseable.go
+
+//@ func NewParseable
+//@ ensures fresh(result) && result != nil && result.PointerPosition == startPointerPosition && len(result.Chars) <= len(l.Text) && implies(len(l.Text) > 0, len(result.Chars) > 0)
+
+//@ func (*Parseable).Peek
+//@ requires p.PointerPosition >= 0
+//@ ensures result == ite(p.PointerPosition < len(p.Chars), p.Chars[p.PointerPosition], 65533)
+
+// PeekUntil returns the longest run of characters from the cursor on that do not satisfy the predicate.
+//@ func (*Parseable).PeekUntil
+//@ requires p.PointerPosition >= 0
+//@ let pos = p.PointerPosition
+//@ let m = len(result0.Chars)
+//@ ensures result0.PointerPosition == pos
+//@ ensures 0 <= m && pos + m <= max(len(p.Chars), pos)
+//@ ensures implies(pos < len(p.Chars), same(result0.Chars, p.Chars[pos:pos+m]))
+//@ ensures implies(pos >= len(p.Chars), isnil(result0.Chars))
+//@ ensures forall(j, 0, m, !isMatch(p.Chars[pos+j]))
+//@ ensures result1 == (pos + m < len(p.Chars))
+//@ ensures implies(result1, isMatch(p.Chars[pos+m]))
+//@ loop 1 invariant i >= p.PointerPosition && (i <= len(p.Chars) || i == p.PointerPosition) && matchLength == i - p.PointerPosition && !hasMatched
+//@ loop 1 invariant forall(j, p.PointerPosition, i, !isMatch(p.Chars[j]))
+//@ loop 1 decreases len(p.Chars) - i
+
+// Remainder returns the rest of the text (its documentation).
+//@ func (*Parseable).Remainder
+//@ requires p.PointerPosition >= 0
+//@ ensures result.PointerPosition == p.PointerPosition
+//@ ensures len(result.Chars) == max(0, len(p.Chars) - p.PointerPosition)
+
+//@ func (*Parseable).Advance
+//@ modifies p.PointerPosition
+//@ ensures p.PointerPosition == old(p.PointerPosition) + increment
+
+//@ func (*Parseable).SkipWhile
+//@ requires p.PointerPosition >= 0 && !isMatch(65533)
+//@ modifies p.PointerPosition
+//@ ensures p.PointerPosition >= old(p.PointerPosition) && p.PointerPosition <= max(len(p.Chars), old(p.PointerPosition))
+//@ ensures forall(j, old(p.PointerPosition), p.PointerPosition, isMatch(p.Chars[j]))
+//@ ensures implies(p.PointerPosition < len(p.Chars), !isMatch(p.Chars[p.PointerPosition]))
+//@ loop 1 invariant p.PointerPosition >= old(p.PointerPosition) && p.PointerPosition <= max(len(p.Chars), old(p.PointerPosition))
+//@ loop 1 invariant forall(j, old(p.PointerPosition), p.PointerPosition, isMatch(p.Chars[j]))
+//@ loop 1 decreases len(p.Chars) - p.PointerPosition
+
+// ---------------------------------------------------------------------------------------------
+// indentation.go
+
+//@ func (*Indentator).NewIndentedParseable
+//@ requires atLevel >= 0
+//@ ensures implies(result != nil, fresh(result) && result.PointerPosition >= 0 && result.PointerPosition == atLevel*len(i.indentationStyle) && result.PointerPosition <= len(l.Text) && len(result.Chars) <= len(l.Text))
+
+// ---------------------------------------------------------------------------------------------
+// block.go
+
+//@ func (*block).SignificantLines
+//@ ensures 0 <= result1 && 0 <= result2 && result1 + result2 <= len(b.lines)
+//@ ensures same(result0, b.lines[result1:len(b.lines)-result2])
+//@ loop 1 invariant 0 <= first
+//@ loop 1 invariant first <= last
+//@ loop 1 invariant last == len(b.lines)
+//@ loop 1 invariant implies(hasSeenSignificant, first <= rangeindex)
+//@ loop 1 invariant implies(!hasSeenSignificant, first == 0)
+
+// ---------------------------------------------------------------------------------------------
+// error.go: an error refers to an existing line of its block
+
+//@ func (*err).LineText
+//@ requires typeis(e.context, *block) && 0 <= e.line && e.line < len(e.context.(*block).lines)
+
+//@ func (*err).LineNumber
+//@ requires typeis(e.context, *block)
+//@ ensures result == e.context.(*block).precedingLineCount + e.line + 1
